@@ -618,16 +618,24 @@ def standard_proof_phase(res, module, prefix, gen_status, needed_modules, thorou
     res.obligations = names
     res.checker_cmd = "cd lean && lake build %s ; lake env lean <#print axioms of %d theorems>%s" % (
         module, len(names), " ; lake env leanchecker " + module if thorough else "")
-    # hand models: the functions they mirror must still have the text they were written from (tools/handmodels.py)
-    try:
-        import handmodels
-        hm = handmodels.compare(res.pid)
-        res.extra["hand_model_fingerprints"] = "match" if not hm else "%d function(s) differ" % len(hm)
-        for w, d in hm:
-            res.broken.append((w, d))
-    except Exception as e:
-        res.broken.append(("hand-model fingerprints (tools/handmodels.py)", repr(e)))
+    def fingerprints(discharged):
+        # hand models: the functions they mirror must still have the text they were written from (tools/handmodels.py),
+        # unless the function is also translated and its bridge theorems were re-proved on this run (discharged)
+        try:
+            import handmodels
+            if discharged is None:
+                hm, sup = handmodels.compare(res.pid), []
+            else:
+                hm, sup = handmodels.compare(res.pid, discharged)
+            res.extra["hand_model_fingerprints"] = "match" if not hm and not sup else "%d function(s) differ, %d of them superseded by re-proved bridge theorems" % (len(hm) + len(sup), len(sup))
+            if sup:
+                res.extra["hand_model_fingerprints_superseded"] = sup
+            for w, d in hm:
+                res.broken.append((w, d))
+        except Exception as e:
+            res.broken.append(("hand-model fingerprints (tools/handmodels.py)", repr(e)))
     if gen_status.get("fatal"):
+        fingerprints(None)
         res.broken.append(("translation (clang AST)", gen_status["fatal"]))
         return False
     if gen_status.get("operators_missing"):
@@ -640,10 +648,12 @@ def standard_proof_phase(res, module, prefix, gen_status, needed_modules, thorou
     res.extra["lake_build_s"] = round(dt, 1)
     if not ok:
         errs = lean_errors(out)
+        fingerprints(None)
         res.broken.append(("lake build %s" % module, "\n".join(errs[:40]) + "\n----\n" + out[-5000:]))
         return False
     bad = audit_sources(module)
     if bad:
+        fingerprints(None)
         res.broken.append(("source audit (sorry/admit/axiom/native_decide/...)", "\n".join(bad)))
         return False
     ax, raw = print_axioms(module, ns, names)
@@ -656,6 +666,8 @@ def standard_proof_phase(res, module, prefix, gen_status, needed_modules, thorou
         else:
             res.discharged.append(n)
     res.extra["axioms"] = {n: ax.get(n) for n in names}
+    # translation, build, audit and axioms all fine so far: bridge theorems among the discharged ones count
+    fingerprints(set(res.discharged) if not res.broken else None)
     if thorough:
         okc, outc = leanchecker(module)
         res.extra["leanchecker"] = "ok" if okc else outc
